@@ -166,3 +166,29 @@ pub proof fn lemma_pad16_after_blocks(a: Seq<u8>, b: Seq<u8>)
     assert((a + b).len() % 16 == b.len() % 16);
     assert(pad16(a + b) =~= a + pad16(b));
 }
+
+// ---- construction side
+/// AES-256 of one block under a key (the block cipher itself: assumed)
+pub uninterp spec fn aes_block(key: Seq<u8>, block: Seq<u8>) -> Seq<u8>;
+pub struct VAes256 { pub key: Ghost<Seq<u8>> }
+impl VAes256 {
+    /// Aes256::new(GenericArray::from_slice(key))
+    #[verifier::external_body]
+    pub fn new(key: &[u8; 32]) -> (r: VAes256) ensures r.key@ == key@ { unimplemented!() }
+    /// BlockEncrypt::encrypt_block, in place
+    #[verifier::external_body]
+    pub fn encrypt_block(&self, b: &mut [u8; 16]) ensures final(b)@ == aes_block(self.key@, old(b)@) { unimplemented!() }
+}
+impl VGHash {
+    /// GHash::new(&key)
+    #[verifier::external_body]
+    pub fn new(hkey: &[u8; 16]) -> (r: VGHash) ensures r.hkey() == hkey@, r.absorbed@ == Seq::<u8>::empty() { unimplemented!() }
+}
+impl VCtr {
+    /// Ctr128BE<Aes256>::new(key.into(), &counter_block.into()): keystream offset 0 is the encryption of the counter block itself
+    #[verifier::external_body]
+    pub fn new(key: &[u8; 32], counter_block: &[u8; 16]) -> (r: VCtr) ensures r.key@ == key@, r.iv@ == counter_block@, r.off@ == 0 { unimplemented!() }
+}
+pub proof fn lemma_pad16_len(d: Seq<u8>)
+    ensures pad16(d).len() == ((d.len() + 15) / 16 * 16) as nat, pad16(d).len() % 16 == 0, pad16(d).len() >= d.len(),
+{ }
